@@ -14,14 +14,60 @@ Theorem C01_projection_partial :
   let bps := r_bps (s_reg s) in
   match next_hit tr (uaddrs bps) (S i) with
   | Some j => exists m' b s', continue_execution code tr rbrk off has_place exit_code s
-                                = Ok (s', StopBp (pc_at tr j) (b_num b)) /\
+                                = Ok (s', CStop (StopBp (pc_at tr j) (b_num b))) /\
                 find_bp (pc_at tr j) bps = Some b /\ b_ty b = TUser /\
-                r_bps (s_reg s') = bps /\ Prompt code tr s' j m' /\ (forall x, m' x = m x)
-  | None => exists s', continue_execution code tr rbrk off has_place exit_code s = Ok (s', StopExit exit_code) /\
-                s_status s' = Exited /\ s_fate s' = FReaped /\ r_bps (s_reg s') = [] /\
-                p_exec (s_proc s') = tr
+                r_bps (s_reg s') = bps /\ Prompt code tr s' j m' /\ (forall x, m' x = m x) /\
+                r_dis (s_reg s') = r_dis (s_reg s)
+  | None => exists s' r, continue_execution code tr rbrk off has_place exit_code s = Ok (s', r) /\
+                exit_seen exit_code r /\ ExitedOK tr s'
   end.
 Proof. exact C01_continue. Qed.
+
+(* `run` from the initial state (after any `break <addr>` commands satisfying H_boundary): the program
+   runs to the entry point, every pending user breakpoint is armed there with its number, and the
+   first stop is the first later position carrying one (true pc), at a Prompt; or the exit is reported *)
+Theorem C01_projection_run_partial :
+  forall code tr rbrk off has_place exit_code,
+  (forall a, In a tr -> code a <> Some INT3) -> (forall a, In a tr -> code a <> None) ->
+  forall entry, off <= entry -> readable code entry -> readable code rbrk -> rbrk <> entry ->
+  (forall k k', (k < length tr)%nat -> (k' < length tr)%nat -> pc_at tr k = entry -> pc_at tr k' = entry -> k = k') ->
+  no_stutter tr -> (0 < length tr)%nat ->
+  forall s, PreStart code rbrk off has_place entry s ->
+  let U := pending_addrs off s in
+  match next_hit tr [entry] O with
+  | None => exists s' r, continue_execution code tr rbrk off has_place exit_code s = Ok (s', r) /\
+                         exit_seen exit_code r /\ ExitedOK tr s'
+  | Some e =>
+      match next_hit tr U (S e) with
+      | Some j => exists m' b s', continue_execution code tr rbrk off has_place exit_code s
+                                    = Ok (s', CStop (StopBp (pc_at tr j) (b_num b))) /\
+                    Prompt code tr s' j m' /\ r_dis (s_reg s') = [] /\
+                    find_bp (pc_at tr j) (r_bps (s_reg s')) = Some b /\ b_ty b = TUser /\
+                    (forall a, In a (uaddrs (r_bps (s_reg s'))) <-> In a U) /\
+                    (exists u, In u (r_dis (s_reg s)) /\ u_key u = Reloc (pc_at tr j) /\ u_num u = b_num b)
+      | None => exists s' r, continue_execution code tr rbrk off has_place exit_code s = Ok (s', r) /\
+                             exit_seen exit_code r /\ ExitedOK tr s'
+      end
+  end.
+Proof. exact C01_run. Qed.
+
+(* whole histories [Add*; Continue; (Add | RemoveAddr | Continue)*] from init_launched: every state
+   reached while the commands stop at breakpoints is a Prompt, so C01_projection_partial,
+   C01_removed_silent_partial, mem_is_patch_partial and C02_transparent_partial hold at every step *)
+Theorem C01_projection_history_partial :
+  forall code tr rbrk off has_place exit_code,
+  (forall a, In a tr -> code a <> Some INT3) -> (forall a, In a tr -> code a <> None) ->
+  forall entry, off <= entry -> readable code entry -> readable code rbrk -> rbrk <> entry ->
+  (forall k k', (k < length tr)%nat -> (k' < length tr)%nat -> pc_at tr k = entry -> pc_at tr k' = entry -> k = k') ->
+  no_stutter tr -> (0 < length tr)%nat ->
+  forall s, Run code tr rbrk off has_place exit_code entry s ->
+  exists i m, Prompt code tr s i m /\ r_dis (s_reg s) = [].
+Proof. exact run_is_prompt. Qed.
+
+Theorem C01_pre_is_prestart :
+  forall code tr rbrk off has_place entry s, Pre code tr rbrk off has_place entry s ->
+  PreStart code rbrk off has_place entry s.
+Proof. exact pre_prestart. Qed.
 
 (* a removed breakpoint is out of the registry and out of memory, the prompt invariant survives:
    by C01_projection_partial it cannot be reported again *)
